@@ -24,25 +24,40 @@ Leaves2 == {Nav("name", B, <<>>, 0), Nav("fixed", B, Nm, DQ), Nav("fixed", A, <<
 Leads   == {Hat, Dots(1), Dots(2), Dots(3)}                   \* weight 1
 FlagSet == {<<>>, <<LM>>, <<LPp>>, <<LM, LPp>>, <<LPp, LM>>}   \* none +m: +p: +mp: +pm:
 
-RECURSIVE NonStarOf(_), ElemsOf(_), ElSeqsOf(_), PathsOf(_), SeqsOf(_)
-LeavesOf(n)  == IF n = 1 THEN Leaves1 ELSE IF n = 2 THEN Leaves2 ELSE {}
-NonStarOf(n) == LeavesOf(n) \cup (IF n >= 2 THEN {Br(sq) : sq \in SeqsOf(n - 1)} ELSE {})
-ElemsOf(n)   == NonStarOf(n) \cup (IF n >= 2 THEN {St(e) : e \in NonStarOf(n - 1)} ELSE {})
-ElSeqsOf(n)  == IF n <= 0 THEN {}
-                ELSE {<<e>> : e \in ElemsOf(n)}
-                     \cup UNION {{<<e>> \o r : e \in ElemsOf(k), r \in ElSeqsOf(n - k)} : k \in 1..(n - 1)}
-PathsOf(n)   == IF n <= 0 THEN {}
-                ELSE {Path(None, els) : els \in ElSeqsOf(n)}
-                     \cup (IF n = 1 THEN {Path(l, <<>>) : l \in Leads}
-                           ELSE {Path(l, els) : l \in Leads, els \in ElSeqsOf(n - 1)})
-SeqsOf(n)    == IF n <= 0 THEN {}
-                ELSE {<<p>> : p \in PathsOf(n)}
-                     \cup UNION {{<<p>> \o r : p \in PathsOf(k), r \in SeqsOf(n - k)} : k \in 1..(n - 1)}
+\* trees by exact weight, level by level (each level is a constant TLC evaluates once)
+Cons(Xs, Rs)   == {<<x>> \o r : x \in Xs, r \in Rs}
+PathsFrom(ES, ESprev) == {Path(None, els) : els \in ES} \cup {Path(l, els) : l \in Leads, els \in ESprev}
+
+NS1 == Leaves1
+E1  == NS1
+ES1 == {<<e>> : e \in E1}
+P1  == {Path(None, els) : els \in ES1} \cup {Path(l, <<>>) : l \in Leads}
+S1  == {<<p>> : p \in P1}
+
+NS2 == Leaves2 \cup {Br(sq) : sq \in S1}
+E2  == NS2 \cup {St(e) : e \in NS1}
+ES2 == {<<e>> : e \in E2} \cup Cons(E1, ES1)
+P2  == PathsFrom(ES2, ES1)
+S2  == {<<p>> : p \in P2} \cup Cons(P1, S1)
+
+NS3 == {Br(sq) : sq \in S2}
+E3  == NS3 \cup {St(e) : e \in NS2}
+ES3 == {<<e>> : e \in E3} \cup Cons(E1, ES2) \cup Cons(E2, ES1)
+P3  == PathsFrom(ES3, ES2)
+S3  == {<<p>> : p \in P3} \cup Cons(P1, S2) \cup Cons(P2, S1)
+
+NS4 == {Br(sq) : sq \in S3}
+E4  == NS4 \cup {St(e) : e \in NS3}
+ES4 == {<<e>> : e \in E4} \cup Cons(E1, ES3) \cup Cons(E2, ES2) \cup Cons(E3, ES1)
+P4  == PathsFrom(ES4, ES3)
+S4  == {<<p>> : p \in P4} \cup Cons(P1, S3) \cup Cons(P2, S2) \cup Cons(P3, S1)
+
+SeqsUpTo(n) == S1 \cup (IF n >= 2 THEN S2 ELSE {}) \cup (IF n >= 3 THEN S3 ELSE {}) \cup (IF n >= 4 THEN S4 ELSE {})
 
 RECURSIVE SumW(_, _)
 SumW(w, i) == IF i > Len(w) THEN 0 ELSE i * w[i] + SumW(w, i + 1)
 Mine(sq)   == SumW(Glue(SeqToks(sq, {}), <<>>), 1) % NShards = ShardNo
-Universe   == {Expr(f, sq) : f \in FlagSet, sq \in {x \in UNION {SeqsOf(n) : n \in 1..N} : Mine(x)}}
+Universe   == {Expr(f, sq) : f \in FlagSet, sq \in {x \in SeqsUpTo(N) : Mine(x)}}
 
 VARIABLE c
 Init == c \in Universe
@@ -56,15 +71,13 @@ ParseSpacedExact == LET r == Parse(PrintSpD(c, {})) IN r.ok /\ r.v = c
 \* reading the text again gives the same structure and the same flags
 RoundTrip == RoundTripOf(c, MCDev)
 NormIdempotent == Norm(Norm(c)) = Norm(c)
-\* writing the source form or the normal form makes no difference to what is read
-SourceAndNormAgree == ReadNorm(PrintD(c, {})) = <<Norm(c)>>
 
 DevNames == <<"ProxyFlagNotPrinted", "FixedNameSingleQuoted">>
 Emit == PrintT("CASE|" \o ToJson(
           [text   |-> PrintD(c, {}),
            textsp |-> PrintSpD(c, {}),
            norm   |-> Norm(c),
-           dev    |-> [ProxyFlagNotPrinted   |-> ReadNorm(PrintD(Norm(c), {"ProxyFlagNotPrinted"})),
-                       FixedNameSingleQuoted |-> ReadNorm(PrintD(Norm(c), {"FixedNameSingleQuoted"})),
-                       Both |-> ReadNorm(PrintD(Norm(c), {"ProxyFlagNotPrinted", "FixedNameSingleQuoted"}))]]))
+           dev    |-> [ProxyFlagNotPrinted   |-> ReReadUnder(c, {"ProxyFlagNotPrinted"}),
+                       FixedNameSingleQuoted |-> ReReadUnder(c, {"FixedNameSingleQuoted"}),
+                       Both |-> ReReadUnder(c, {"ProxyFlagNotPrinted", "FixedNameSingleQuoted"})]]))
 =============================================================================
